@@ -1,4 +1,5 @@
 #![warn(missing_docs)]
+#![allow(unexpected_cfgs)] // `rs_tftpd_verif` guards verification hooks, off by default
 
 //! Multithreaded TFTP daemon implemented in pure Rust.
 //!
@@ -27,6 +28,9 @@ mod server;
 mod socket;
 mod window;
 mod worker;
+
+#[cfg(rs_tftpd_verif)]
+pub mod verif;
 
 #[cfg(feature = "client")]
 pub use client::Client;
